@@ -127,6 +127,9 @@ def _cons_shard(spec, emit):
             budget = {b_it: int(rng.integers(1, 5))}
             if b_ep:
                 budget[b_ep] = int(rng.choice([7, 14, 22, 60])) if solver != "MultiTaskBCD" else int(rng.choice([12, 14, 24, 60]))
+            if b_ep == "max_epochs" and rng.random() < 0.25:
+                # many outer iterations of 1-3 epochs: Anderson histories and extrapolations straddle working-set changes
+                budget = {b_it: 40, b_ep: int(rng.integers(1, 4))}
             out = case.solve(w0, xw0, trace_kinds=("epoch", "outer_end", "return"), **budget)
             if out["exc"] is not None:
                 emit(dict(base, status="refused", nontrivial=False, obs=dict(exc=repr(out["exc"])[:300],
